@@ -80,4 +80,10 @@ theorem C16_roots_current (q : Nat) (docs₁ docs₂ : List (List Def)) (hp : do
 example : (loadAll genCfg 1 [[⟨5, 0⟩], [⟨1, 1⟩]]).hasQuery = true ∧ (loadAll genCfg 1 [[⟨5, 0⟩, ⟨1, 1⟩]]).hasQuery = true := by
   decide
 
+/-- **C16_input_extend_ordered.**  `(*Input).Extend` on this run adds the fields of an extension in the order of
+its list, like the other kinds (D76 repaired: it ranged over the Go map that indexes them, so the member order of
+an extended input type — printed SDL, `inputFields` — changed from run to run).  The translator matches the
+whole body; the order-sensitive `extend-order` cases of the correspondence check the behaviour. -/
+theorem C16_input_extend_ordered : Gen.inputExtendMapOrder = false := by decide
+
 end Ggql.Load
